@@ -27,6 +27,7 @@ class PolicyProxy:
     def __init__(self, pol, base):
         self._pol, self._base = pol, base
         self.ops = []
+        self.fwd_ops = []        # what downstream sees: one admit per forwarded request + feedback calls
         self.calls = []          # per-handler scratch: results of try_acquire
 
     def try_acquire(self, now):
@@ -46,8 +47,13 @@ class PolicyProxy:
         else:
             self._pol.record_failure(now)
         r = self._pol.current_rate
-        self.ops.append(["s" if up else "f", now.nanoseconds - self._base, cp._micro(r),
-                         cp._floor_ns_per_token(r) if r > 0 else 1])
+        op = ["s" if up else "f", now.nanoseconds - self._base, cp._micro(r),
+              cp._floor_ns_per_token(r) if r > 0 else 1]
+        self.ops.append(op)
+        self.fwd_ops.append(list(op))
+
+    def forwarded(self, now):
+        self.fwd_ops.append(["a", now.nanoseconds - self._base, 1])
 
     def __getattr__(self, name):
         return getattr(self._pol, name)
@@ -141,6 +147,9 @@ class RecRLE(RateLimitedEntity):
         is_poll = event.event_type == f"rate_limit_poll::{self.name}"
         result = super().handle_event(event)
         _record_step(self, event, result, is_poll)
+        for ev in (result or []):
+            if ev.event_type.startswith("forward::"):
+                self._proxy.forwarded(ev.time)
         return result
 
 
@@ -237,12 +246,13 @@ def run_rle(pol, hdr, *, base, arrivals, cap, end, feeder_ids=(), feedback_plan=
         st[4] = amap.get(st[4], st[4] and 10 ** 6 + st[4])
     sink.got = [(amap.get(g, g and 10 ** 6 + g), t) for g, t in sink.got]
     return dict(steps=rl.steps, sink=[g[0] for g in sink.got], sink_t=[g[1] for g in sink.got], ops=ops,
+                fwd_ops=proxy.fwd_ops if proxy is not None else [],
                 spin=spin, spun=rl.spun, err=err, stats=rl.stats, depth=rl.queue_depth,
                 fwd_t=[t.nanoseconds - base for t in rl.forwarded_times])
 
 
 def entity_trace(tid, res, cap, model=1):
-    return {"id": tid, "cap": min(int(cap), 10 ** 9), "model": model, "spin": res["spin"],
+    return {"id": tid, "cap": min(int(cap), 10 ** 9), "model": model, "order": model, "spin": res["spin"],
             "steps": res["steps"], "sink": res["sink"]}
 
 
